@@ -379,8 +379,10 @@ func (msgType) trial(dirty, next []Op, acq int64) (*Diff, bool) {
 	socket.PutMessage(m)
 	var rec socket.Message
 	var aside []socket.Message
+	// acquisition without settings first (identity), then the settings are applied the way GetMessage /
+	// NewMessage apply them; a setting that panics on the recycled object only is a difference
 	for i := 0; i < 16; i++ {
-		g := socket.GetMessage(msgSettings(acq)...)
+		g := socket.GetMessage()
 		if g == m {
 			rec = g
 			break
@@ -391,7 +393,23 @@ func (msgType) trial(dirty, next []Op, acq int64) (*Diff, bool) {
 	if rec == nil {
 		return nil, false
 	}
-	fresh := socket.NewMessage(msgSettings(acq)...)
+	fresh := socket.NewMessage()
+	setAll := func(x socket.Message) (res string) {
+		defer func() {
+			if p := recover(); p != nil {
+				res = fmt.Sprintf("PANIC: %v", p)
+			}
+		}()
+		for _, fn := range msgSettings(acq) {
+			if fn != nil {
+				fn(x)
+			}
+		}
+		return "ok"
+	}
+	if a, b := setAll(rec), setAll(fresh); a != b {
+		return &Diff{Field: "acquire-with-settings", Symptom: "differs-after-acquire", Got: a, Want: b}, true
+	}
 	if d := cmpSnap(msgSnap(rec), msgSnap(fresh), "differs-after-acquire"); d != nil {
 		return d, true
 	}
